@@ -144,6 +144,14 @@ class EHistCheck(Check):
         m = self.model
         st, exp, failed = self.replay_model(tpl, hist)
         src = self.source(tpl, hist)
+        nfinal = 0
+        if not failed and hasattr(m, "final_observation"):
+            # the state reached by the implementation is read back through the model's observer expressions (the same ones that
+            # define state identity in the search), so a silent operation with a wrong effect is seen at once
+            fsrc, fexp = m.final_observation(tpl, st)
+            src += fsrc
+            exp = exp + list(fexp)
+            nfinal = len(fexp)
         files = {"x.ms": src}
         files.update(m.files(tpl))
         d = driver.fresh_dir()
@@ -173,7 +181,8 @@ class EHistCheck(Check):
                                           f"{(driver.panic_message(res) or res.err[-200:])[:200]}")
             elif lines != exp:
                 i = next((j for j, (a, b) in enumerate(zip(lines, exp)) if a != b), min(len(lines), len(exp)))
-                bad("observation", f"line {i}: expected {exp[i] if i < len(exp) else '<end>'!r} got {lines[i] if i < len(lines) else '<end>'!r}")
+                where = f"final observer {i - (len(exp) - nfinal)}" if nfinal and i >= len(exp) - nfinal else f"line {i}"
+                bad("observation", f"{where}: expected {exp[i] if i < len(exp) else '<end>'!r} got {lines[i] if i < len(lines) else '<end>'!r}")
         return {"outcome": ("fail" if failed else "ok") + ("-DIFF" if viol else ""), "viol": viol, "nontrivial": len(hist) >= 1,
                 "tags": [f"op-{opname}", f"tpl-{tpl}"]}
 
